@@ -277,6 +277,7 @@ def plan(tier):
     for i in range(len(MENU)):
         shards.append(('b', [i, m]))
     shards.append(('c', None))
+    shards.append(('d', None))
     return shards
 
 
@@ -308,6 +309,8 @@ def run_shard(shard, tier, seed):
             _run_b(res, tk, arg[0], arg[1])
         elif kind == 'c':
             _run_c(res)
+        elif kind == 'd':
+            _run_grammars(res, tier)
     finally:
         guard.signal.setitimer(guard.signal.ITIMER_REAL, 0)
         guard.signal.signal(guard.signal.SIGALRM, old)
@@ -578,6 +581,64 @@ def _run_c(res):
 
 
 # ----------------------------------------------------------------------------------------
+# (d) tokenizers with a grammar of their own: every tokenizer classifies by the grammar it was given, whatever was built before it
+
+
+def _grammar(i):
+    """-> (macros, productions) arguments; same production / macro names everywhere, other definitions"""
+    from cssutils.cssproductions import MACROS, PRODUCTIONS
+    if i == 0:
+        return None, None
+    if i == 1:
+        return None, [(n, r'\#[0-9a-fA-F]{6}') if n == 'HASH' else (n, r) for n, r in PRODUCTIONS]
+    if i == 2:
+        return None, [(n, r'[0-9]+') if n == 'NUMBER' else (n, r) for n, r in PRODUCTIONS]
+    if i == 3:
+        return dict(MACROS, nmchar=r'[_a-zA-Z0-9]|{nonascii}|{escape}'), None
+    return dict(MACROS, nmchar=r'[_a-zA-Z0-9]|{nonascii}|{escape}'), [(n, r'\#[0-9a-fA-F]{6}') if n == 'HASH' else (n, r) for n, r in PRODUCTIONS]
+
+
+GRAMMARS = ['default', 'HASH=6 hex digits', 'NUMBER=digits only', 'nmchar without "-"', 'both HASH and nmchar']
+GRAMMAR_TEXTS = ['#fff #ffffff', '1.5 .5 7', 'a-b #a-b', '/*c*/ url(x) "s"']
+
+
+def _grammar_tokens(tk):
+    return [[(t[0], t[1]) for t in tk.tokenize(x)] for x in GRAMMAR_TEXTS]
+
+
+def _grammar_history(res, hist):
+    import cssutils.tokenize2 as t2
+    case = {'kind': 'grammars', 'history': list(hist), 'names': [GRAMMARS[i] for i in hist]}
+    res.evaluations += 1
+    res.clauses['C05.classify'] += 1
+    alone = {}
+    for i in set(hist):
+        t2._TOKENIZER_CACHE.clear()
+        alone[i] = _grammar_tokens(Tokenizer(*_grammar(i)))
+    t2._TOKENIZER_CACHE.clear()
+    built = []
+    for step, i in enumerate(hist):
+        built.append((i, Tokenizer(*_grammar(i))))
+        for j, (g, tk) in enumerate(built):
+            got = _grammar_tokens(tk)
+            res.outcomes.add(h64(['grammars', g, got]))
+            if got != alone[g]:
+                which = 'newest' if j == step else 'earlier'
+                res.violation('C05.classify', f'own-grammar|{which} tokenizer answers by another grammar|{GRAMMARS[g]}', case, alone[g], got, size=len(hist))
+                return
+    t2._TOKENIZER_CACHE.clear()
+    res.nontrivial += 1
+
+
+def _run_grammars(res, tier):
+    n = 3 if tier == 'quick' else 4
+    for L in range(1, n + 1):
+        for hist in itertools.product(range(len(GRAMMARS)), repeat=L):
+            _grammar_history(res, hist)
+    res.sample({'kind': 'grammars', 'history': [1, 0], 'names': [GRAMMARS[1], GRAMMARS[0]]})
+
+
+# ----------------------------------------------------------------------------------------
 
 
 def replay(case, tier, seed):
@@ -609,6 +670,8 @@ def replay(case, tier, seed):
             _check_b(res, tk, case['text'], case['fullsheet'], exp, case)
         elif case['kind'] == 'errorpos':
             _err_case(res, case['context'], case['prefix'], case['bad'])
+        elif case['kind'] == 'grammars':
+            _grammar_history(res, tuple(case['history']))
     finally:
         guard.signal.setitimer(guard.signal.ITIMER_REAL, 0)
         guard.signal.signal(guard.signal.SIGALRM, old)
